@@ -238,7 +238,9 @@ func init() {
 		c.DistN("exhaustive_entries", len(all))
 		rng := rand.New(rand.NewSource(c.Seed))
 		// (b) random longer
-		pieces := []string{"..", ".", "/", "\\", "%2e", "%2E", "%2f", "%2F", "%5c", "%5C", "%25", "%", "+", "a", "dir", "file", ".fga", "%2e%2e", "%252e", "%c0%ae", "%00", "é", " ", "%zz", "%2"}
+		pieces := []string{"..", ".", "/", "\\", "%2e", "%2E", "%2f", "%2F", "%5c", "%5C", "%25", "%", "+", "a", "dir", "file", ".fga", "%2e%2e", "%252e", "%c0%ae", "%00", "é", " ", "%zz", "%2",
+			// separators and dots encoded twice and three times (a second decoding round must not happen)
+			"%255c", "%255C", "%252f", "%252F", "%25255c", "%2525252e", "%25%35%63"}
 		nb := c.Pick(4000, 200000)
 		batch := []string{}
 		for i := 0; i < nb; i++ {
